@@ -57,12 +57,18 @@ def generate(rng, i, tier):
         modes = {}
         if rng.random() < 0.35:
             modes["unmatched-mode"] = "keep"
+        if rng.random() < 0.1:
+            modes["run-mode"] = "no-run"
         m = gen.gen_member(rng, hdr, len(rows), ident, modes=modes, zoo_p=0.3, zoo_pool=gen.ZOO_SAFE)
         members.append(m)
     nruns = 1 if rng.random() < 0.6 else 2
     runs = []
     for r in range(nruns):
-        runs.append({"method": rng.choice(ops.METHODS), "inst": "new" if r == 0 or rng.random() < 0.5 else "reused", "tick_s": 0 if r == 0 else rng.choice([0, 1, 90])})
+        run = {"method": rng.choice(ops.METHODS), "inst": "new" if r == 0 or rng.random() < 0.5 else "reused", "tick_s": 0 if r == 0 else rng.choice([0, 1, 90])}
+        if rng.random() < 0.15:
+            # a caller that starts a generator run on this instance and walks away after a few lines
+            run["abandoned_before"] = {"method": rng.choice(["next_paths", "next_paths_collect", "next_by_line"]), "after": rng.randint(1, 3), "tick_s": rng.choice([0, 1])}
+        runs.append(run)
     dialect = [",", '"'] if rng.random() < 0.8 else rng.choice([[";", '"'], ["|", '"'], ["\t", '"'], [",", "'"]])
     return {
         "seed": rng.getrandbits(32),
@@ -95,6 +101,10 @@ def reductions(sc):
     if sc["dialect"] != [",", '"']:
         yield with_(sc, dialect=[",", '"'])
     for j, r in enumerate(sc["runs"]):
+        if r.get("abandoned_before"):
+            c = with_(sc)
+            del c["runs"][j]["abandoned_before"]
+            yield c
         if r["method"] != "collect_paths":
             c = with_(sc)
             c["runs"][j]["method"] = "collect_paths"
@@ -234,6 +244,7 @@ def execute(sc):
             out.discard = True
             out.log("setup", ops.exc_sig(e))
             return out.done()
+        checked_dirs = []
         for ri, run in enumerate(sc["runs"]):
             if run["tick_s"]:
                 seams.SimClock.advance(seconds=run["tick_s"])
@@ -244,9 +255,21 @@ def execute(sc):
                 cs = ops.new_csvpaths(delim, quote)
             elif ri:
                 out.fault("instance_reuse")
+            ab = run.get("abandoned_before")
+            if ab:
+                try:
+                    got_ab = ops.run_group(cs, ab["method"], "g", stop_after=ab["after"])
+                    if got_ab is not None and len(got_ab) >= ab["after"]:
+                        out.fault("cancel")
+                        out.probe("run after an abandoned generator run on the same instance")
+                except Exception as e:  # noqa: BLE001
+                    if not ops.in_repo(e):
+                        raise
+                if ab["tick_s"]:
+                    seams.SimClock.advance(seconds=ab["tick_s"])
             TEE.clear()
             meth = run["method"]
-            where = f"run {ri} ({meth}, {run['inst']} instance)"
+            where = f"run {ri} ({meth}, {run['inst']} instance{', after an abandoned ' + ab['method'] if ab else ''})"
             try:
                 lines = ops.run_group(cs, meth, "g")
             except Exception as e:  # noqa: BLE001
@@ -257,6 +280,7 @@ def execute(sc):
                 raise
             out.runs += 1
             run_dir, kinds = check_run_archive(out, cs, "g", sc["members"], where, collecting=meth in ops.COLLECTING, facts={"method": meth, "run": ri, "inst": run["inst"]})
+            checked_dirs.append(run_dir)
             rs = ops.results_of(cs, "g")
             term = sorted({("stopped" if r.csvpath.stopped and not r.csvpath.completed else "exhausted") + ("" if r.csvpath.is_valid else "+failed") for r in rs})
             out.sig.append([meth, len(sc["members"]), term, sorted(kinds), sc["dialect"] != [",", '"'], ri, run["inst"]])
@@ -267,7 +291,9 @@ def execute(sc):
             out.log(ri, meth, run_dir, sorted(kinds), len(out.violations), [ops.path_state(r.csvpath, errors=r.errors) for r in rs])
             if out.violations:
                 break
-        out.log("tree", _digest_tree())
+        out.probe("run after an abandoned generator run on the same instance", False)
+        out.probe("member with run-mode: no-run", any((m.get("modes") or {}).get("run-mode") == "no-run" for m in sc["members"]))
+        out.log("tree", _digest_tree(checked_dirs))
     return out.done()
 
 
@@ -278,13 +304,16 @@ def _is_program_problem(e):
     return n in ("ParsingException", "UnexpectedCharacters", "UnexpectedInput", "UnexpectedEOF", "VisitError", "InputException", "ChildrenException") and "parse" in (str(e).lower() + n.lower())
 
 
-def _digest_tree():
-    """archive tree hash with volatile error fields (object addresses in
-    'source', tracebacks) normalised."""
+def _digest_tree(dirs=None):
+    """archive tree hash (of the runs that returned: an abandoned generator run
+    keeps its spooler open until the garbage collector gets to it) with volatile
+    error fields (object addresses in 'source', tracebacks) normalised."""
     import hashlib
 
     h = hashlib.sha256()
     for p, d in sorted(W.tree_hashes("archive").items()):
+        if dirs is not None and not any(p.startswith(x + os.sep) for x in dirs):
+            continue
         if p.endswith("errors.json"):
             try:
                 es = D.read_json(p)
